@@ -772,7 +772,7 @@ def replay_with(flavour_of, data):
         print(err[-500:])
         return False
     case["fl"] = flavour_of(case["what"], case["kinds"])
-    _, frag, info = do_case(binary, case, os.path.exists(C.model_bin()))
+    _, frag, info = do_case(binary, case, True)
     print("verdict", info)
     for f in frag.oracle_failures[:5]:
         print("ORACLE", f["what"], {k: v for k, v in f["case"].items() if k in ("block", "container", "key", "ops", "real", "pre", "real_callbacks")})
